@@ -23,6 +23,10 @@ def guards(body):
     for bb, e, tt, ff in bool_switches(body):
         ct = norm_cmp(e, True)
         cf = norm_cmp(e, False)
+        if ct is None and cf is None and body.term(bb).get('dty') not in ('bool', None) and body.term(bb)['vals'][0][0] == 0:
+            # `match n { 0 => .., _ => .. }` on an integer: n == 0 on the listed edge, n != 0 on the other
+            txt = fmt(strip_casts(e))
+            ct, cf = ('Ne', txt, '0'), ('Eq', txt, '0')
         out.append({'bb': bb, 'expr': e, 'cmp_true': ct, 'cmp_false': cf, 't': tt, 'f': ff,
                     'text': fmt(strip(e))})
     return out
